@@ -1,7 +1,7 @@
 SPECIFICATION Spec
 CONSTANT UseMutex = TRUE
-CONSTANT SharedScratch = TRUE
-CONSTANT TryLock = FALSE
+CONSTANT SharedScratch = FALSE
+CONSTANT TryLock = TRUE
 INVARIANT ParEqualsSeq
 INVARIANT NoLostStrategyUpdate
 INVARIANT LockFree
